@@ -28,6 +28,36 @@ def mutant_refuted(ctx, params):
     return True
 
 
+def apalache_inductive(ctx):
+    """Unbounded-history complement (Apalache): the pool invariant is inductive; the pinned Put is refuted.
+    A missing tool, a timeout or any other trouble only degrades the evidence; it is never a verdict."""
+    import shutil, subprocess
+    if not shutil.which("apalache-mc"):
+        return dict(ran=False, reason="apalache-mc not on PATH")
+    d = os.path.join(ctx.work, "apa")
+    os.makedirs(d, exist_ok=True)
+    shutil.copy(os.path.join(ctx.spec, "PoolApa.tla"), d)
+    res = dict(ran=True)
+    for name, mode, init, length, expect_ok in (("base", "spec", "Init", 0, True), ("step", "spec", "IndInit", 1, True), ("pinned_step", "pinned", "IndInit", 1, False)):
+        open(os.path.join(d, name + ".cfg"), "w").write('CONSTANTS\n  PutMode = "%s"\nINIT Init\nNEXT Next\n' % mode)
+        try:
+            r = subprocess.run(["apalache-mc", "check", "--config=%s.cfg" % name, "--init=" + init, "--inv=IndInv", "--length=%d" % length,
+                                "--out-dir=" + os.path.join(d, "out-" + name), "PoolApa.tla"], cwd=d, capture_output=True, text=True, timeout=600)
+        except subprocess.TimeoutExpired:
+            res[name] = "timeout"
+            continue
+        ok = "EXITCODE: OK" in r.stdout
+        err = "EXITCODE: ERROR (12)" in r.stdout
+        res[name] = "holds" if ok else "violated" if err else "inconclusive"
+        if (expect_ok and not ok) or (not expect_ok and not err):
+            res["unexpected"] = name
+    shutil.rmtree(d, ignore_errors=True)
+    if res.get("unexpected") and res[res["unexpected"]] in ("violated", "holds"):
+        raise Infra("Apalache obligation %s came out %s: the pool specification is wrong" % (res["unexpected"], res[res["unexpected"]]))
+    ctx.note("Apalache: IndInv holds initially (%s), is inductive (%s), and is refuted for the pinned Put (%s)" % (res.get("base"), res.get("step"), res.get("pinned_step")))
+    return res
+
+
 def pool_mismatches(ctx, stats):
     files = [f for st in stats for f in st["files"]]
     mm, tot = validate_files(ctx, "PoolTrace", POOL_TRACE_CFG, files)
@@ -39,6 +69,7 @@ def run(ctx):
     params = MC[(ctx.prop, ctx.tier)]
     mc = model_check(ctx, "MCPool", pool_cfg(**params), timeout=3000, tag="MCPool-" + ctx.prop)
     mutant_refuted(ctx, params)
+    apa = apalache_inductive(ctx) if ctx.prop == "C10" else None
     viol = 0
     races = 0
     if ctx.prop == "C10":
@@ -85,7 +116,7 @@ def run(ctx):
                distinct_nontrivial=distinct_cases(stats),
                rule="distinct_nontrivial counts distinct (operation, use kind, reused flag, buffer length, capacity, channels, goroutine count) tuples among the recorded events; reused_gets counts Gets that returned a previously pooled buffer (the path no repository test executes); every Get/Use/Check event carries the full projection of the buffer and is compared with the Pool.tla state",
                model=dict(module="MCPool", params=params, depth=mc["depth"], exhaustive=True, spec_mutant_PutAsPinned_refuted=True),
-               race_detector_reports=races if ctx.prop == "C11" else None, exhaustive=False,
+               race_detector_reports=races if ctx.prop == "C11" else None, exhaustive=False, apalache_inductive_invariant=apa,
                run_configs={k: v for st in stats for k, v in st["extra"].items()})
     assumptions = ["TLC/SANY/Json module trusted", "sync.Pool's choice between a pooled and a new buffer is nondeterministic in the model and bound by the logged identity",
                    "the harness keeps every buffer referenced, so pointer identity is storage identity"]
